@@ -33,3 +33,6 @@ import RenetVerif.Props.SrcTieServer
 import RenetVerif.Props.SrcTieNcCodec
 import RenetVerif.Props.SrcTieNcServerQuery
 import RenetVerif.Props.SrcTieNcServerSend
+import RenetVerif.Props.SrcTieNcServerRecv
+import RenetVerif.Props.SrcTieNcTokenGen
+import RenetVerif.Props.SrcTieNcClient
